@@ -21,6 +21,11 @@ FALSE_FLAG_OK = {
 
 def run(ck, tier):
     F = factsmod.Facts("ws")
+    from . import arms
+    stab = [e for e in arms.load_sink_table() if e["fn"].startswith("arrow_row::")]
+    ck.rule("C11.sink-uniform", "both arms of LengthTracker::extend_offsets let `initial_offset` influence the offsets they push AND the total they return (appending "
+            "to non-empty Rows); both UnionMode arms of decode_column consume the rows they were given", floor=len(stab))
+    arms.check_sinks(ck, F, "C11.sink-uniform", stab)
     ck.rule("C11.table-agreement", "every DataType constructor that supports_datatype definitely accepts is routed by Codec::new, row_lengths, encode_column and decode_column", floor=30)
     variants = dtm.enum_variants(F, "arrow_schema::datatype::DataType")
     cache = {}
